@@ -522,8 +522,34 @@ impl<'a> Ctx<'a> {
                         .any(|d| matches!(d.exec, ExecResult::Failed { .. } | ExecResult::Aborted { .. } | ExecResult::Unknown))
             }
         };
-        let mut run_aborted = false;
+        // documents are read and parsed before anything is executed: an unparsable main
+        // document or a missing path ends the run before the first test case
+        let upfront = self.sc.tier == Tier::Cli
+            && (!self.sc.cli.missing_paths.is_empty() || self.sc.docs.iter().any(|d| d.main && d.raw.is_some()));
+        let mut run_aborted = upfront;
         for d in &self.obs.docs {
+            // a document whose shell does not exist or whose prepend/append cannot be read
+            // ends the run when it is reached
+            if self.sc.tier == Tier::Cli && !run_aborted {
+                let main = &self.sc.docs[d.doc];
+                let dir = match main.path.rfind('/') {
+                    Some(i) => &main.path[..i + 1],
+                    None => "",
+                };
+                let shell_missing = self.sc.cli.shell.is_none()
+                    && main.shell.as_deref().map(|s| !std::path::Path::new(s).exists()).unwrap_or(false)
+                    || self.sc.cli.shell.as_deref().map(|s| !std::path::Path::new(s).exists()).unwrap_or(false);
+                let bad_ref = main.prepend.iter().chain(main.append.iter()).any(|p| {
+                    let full = format!("{}{}", dir, p);
+                    match self.sc.docs.iter().find(|x| x.path == full) {
+                        None => true,
+                        Some(x) => x.raw.is_some(),
+                    }
+                });
+                if shell_missing || bad_ref {
+                    run_aborted = true;
+                }
+            }
             if run_aborted {
                 // scrut ended the run in an earlier document: nothing is demanded of this one
                 let list = exec_list(self.sc, &self.sc.docs[d.doc]);
